@@ -128,6 +128,8 @@ def gen_history(rng, opts):
             n = len(vs) // 2
             if n == 0:
                 continue
+            # precondition of rename: the new names are unbound
+            ops.append("forget %d %d %s" % (r, n, " ".join(map(str, vs[n:2 * n]))))
             ops.append("rename %d %d %s %s" % (r, n, " ".join(map(str, vs[:n])), " ".join(map(str, vs[n:2 * n]))))
         elif pick == "expand":
             a, b = rng.sample(range(nv), 2)
@@ -423,6 +425,9 @@ def oracle(line, ans, rng=None, checks=("at", "leq", "entails", "csts", "bot")):
                 S = T
             elif op == "rename":
                 n = k.nexti(); fr = [k.nexti() for _ in range(n)]; to = [k.nexti() for _ in range(n)]
+                stt = last_state.get(r, "top")
+                if stt not in ("top", "bot") and any(stt[v] != (None, None) for v in to if v < len(stt)):
+                    S = []      # outside the precondition of rename (a new name is bound): nothing to check
                 T = []
                 for s in S:
                     t = s
